@@ -8,6 +8,7 @@ import DudModel.Same
 import DudModel.Lock
 import DudModel.Sys
 import DudModel.SysCmd
+import DudModel.SysCheckout
 /-!
 # `dudmodel` — line-protocol driver of the executable model
 
@@ -318,6 +319,19 @@ def traceCommit (strat : Strat) (canRename : Bool) (targets : List Bytes) (w : W
       (#["create_excl L"], 0, existing)
     .ok (out.push "unlink L")
 
+/-- traced `dud checkout`: the call sequence is the library function `Sys.cmdCheckoutSegs` (DudModel/SysCheckout.lean, the object of
+`Props/C06cmd.lean`); rendering only here. -/
+def traceCheckout (strat : Strat) (single : Bool) (targets : List Bytes) (w : World ByteArray) : Except Err (Array String) :=
+  let c : Sys.CmdCfg ByteArray :=
+    { cfg := theCfg, isEmp := fun b => b.size == 0, canRename := true, encStage := fun _ => ba [0x73] }
+  match Sys.cmdCheckoutSegs c strat single targets w with
+  | .error e => .error e
+  | .ok (_, segs) =>
+    let (out, _) := segs.foldl (fun (acc : Array String × Nat) (seg : List (Sys.Call ByteArray)) =>
+      (seg.foldl (fun o c => let l := callStr acc.2 c; if l.isEmpty then o else o.push l) acc.1, acc.2 + 1))
+      (#["create_excl L"], 0)
+    .ok (out.push "unlink L")
+
 structure Sim where
   w : World ByteArray := {}
   step : Nat := 0
@@ -483,6 +497,14 @@ partial def simLoop (inp out : IO.FS.Stream) (sim : Sim) : IO Unit := do
         simLoop inp out { sim with w := { w' with stat := [], log := [] }, step := sim.step + 1 }
   | "top" :: "commit" :: st :: cr :: ts =>
     (match traceCommit (strat st) (cr == "1") (ts.map unhex) sim.w with
+     | .ok lines => do
+        out.putStrLn "trace ok"
+        emit out lines
+     | .error e => out.putStrLn s!"trace err:{e}")
+    out.putStrLn "endtrace"
+    simLoop inp out sim
+  | "top" :: "checkout" :: st :: single :: ts =>
+    (match traceCheckout (strat st) (single == "1") (ts.map unhex) sim.w with
      | .ok lines => do
         out.putStrLn "trace ok"
         emit out lines
